@@ -50,17 +50,18 @@ def parse_vmsg(out):
 
 
 def _one_chunk(args):
-    drv, bdir, idx, execs, spec = args
+    drv, bdir, idx, execs, spec, drv_env = args
     beh = os.path.join(bdir, "beh_%03d.txt" % idx)
     trc = os.path.join(bdir, "trace_%03d.ndjson" % idx)
     with open(beh, "w") as f:
         for ex in execs:
             f.write("\n".join(ex) + "\n")
     t0 = time.time()
-    vlib.run_driver(drv, beh, trc, timeout=3000)
+    vlib.run_driver(drv, beh, trc, timeout=3000, env=drv_env)
     t1 = time.time()
     nlines = sum(1 for _ in open(trc))
     msgs, drift, xstat, states, distinct = [], [], [], 0, 0
+    itsteps = 0
     for sp in spec.split("+"):
         r = vlib.run_tlc(os.path.join(vlib.SPEC, sp + ".tla"), os.path.join(vlib.SPEC, sp + ".cfg"),
                          os.path.join(bdir, "tlc_%s_%03d" % (sp, idx)), env={"TRACE": trc}, workers=1, timeout=3000, xmx="1g")
@@ -75,22 +76,24 @@ def _one_chunk(args):
             xstat.append(tuple(int(x) for x in f))
         states += r.states
         distinct += r.distinct
+        for body in _tuples(r.out, "ITSTEPS"):
+            itsteps += int(body)
     t2 = time.time()
     for m in msgs:
         m["chunk"] = idx
     return {"idx": idx, "beh": beh, "trace": trc, "lines": nlines, "states": states, "distinct": distinct,
-            "msgs": msgs, "drift": drift, "xstat": xstat, "t_driver": t1 - t0, "t_tlc": t2 - t1, "execs": len(execs)}
+            "msgs": msgs, "drift": drift, "xstat": xstat, "itsteps": itsteps, "t_driver": t1 - t0, "t_tlc": t2 - t1, "execs": len(execs)}
 
 
-def run_api(bdir, drv, beh_lines, nproc=None, spec="ApiTrace"):
+def run_api(bdir, drv, beh_lines, nproc=None, spec="ApiTrace", drv_env=None):
     """returns dict(results=[...per chunk], msgs=[...], execs=N, lines=N, states=N)"""
     nproc = nproc or vlib.NCPU
     chunks, nexec = split_execs(beh_lines, nproc)
     with cf.ThreadPoolExecutor(nproc) as ex:
-        results = list(ex.map(_one_chunk, [(drv, bdir, i, c, spec) for i, c in enumerate(chunks)]))
+        results = list(ex.map(_one_chunk, [(drv, bdir, i, c, spec, drv_env) for i, c in enumerate(chunks)]))
     msgs = [m for r in results for m in r["msgs"]]
     return {"results": results, "msgs": msgs, "execs": nexec, "drift": [d for r in results for d in r["drift"]],
-            "xstat": [(r["idx"],) + x for r in results for x in r["xstat"]], "lines": sum(r["lines"] for r in results),
+            "xstat": [(r["idx"],) + x for r in results for x in r["xstat"]], "lines": sum(r["lines"] for r in results), "itsteps": sum(r["itsteps"] for r in results),
             "states": sum(r["states"] for r in results), "distinct": sum(r["distinct"] for r in results)}
 
 
